@@ -413,10 +413,7 @@ func c07Run(tier, shard string, r *mc.Reporter) {
 		return
 	}
 	sh, _ := strconv.Atoi(shard)
-	maxLen := 3
-	if tier == "thorough" {
-		maxLen = 4
-	}
+	maxLen := 4
 	langs := []string{"fr", "ar", "zh-hant", "xx"}
 	enumTexts(c07Alphabet, 0, maxLen, func(idx int, t []rune) bool {
 		if idx%c07NShards != sh {
@@ -448,9 +445,9 @@ func c07Run(tier, shard string, r *mc.Reporter) {
 		return true
 	})
 	// bracket pass: longer texts over letters of three scripts, two bracket pairs and space (whole range)
-	bl := 5
+	bl := 6
 	if tier == "thorough" {
-		bl = 6
+		bl = 7
 	}
 	enumTexts([]rune{'a', 0x03B1, 0x05D0, '(', ')', '[', ']', ' '}, maxLen+1, bl, func(idx int, t []rune) bool {
 		if idx%c07NShards != sh {
@@ -527,6 +524,6 @@ func init() {
 		Assumptions: []string{"reference embedding levels from the x/text bidi core applied to each paragraph of the requested sub-range, auto paragraph level for LTR/TTB inputs and level 1 for RTL/BTT (the convention of the library's own bidi call)",
 			"neutral characters: only 'no invented script' is required (the run script is Common or the script of some strong rune of the text)"},
 		Shards: c07ShardList, Run: c07Run, Replay: c07Replay,
-		Bounds: map[string]string{"quick": "texts of length <= 3 over 24 runes; bracket alphabet (8 runes) length 4..5", "thorough": "texts of length <= 4 over 24 runes; bracket alphabet length 5..6"},
+		Bounds: map[string]string{"quick": "texts of length <= 4 over 24 runes; bracket alphabet (8 runes) length 5..6", "thorough": "texts of length <= 4 over 24 runes; bracket alphabet length 5..7"},
 	})
 }
